@@ -273,9 +273,35 @@ def run_plain(case):
       set(x) == set(y) and all(same_array(np.asarray(x[k]), np.asarray(y[k])) for k in x)
       for x, y in zip(batches, again)), 'second_iteration_differs')
   check_overlapping_passes(view, batches)
+  check_consumer_edits(case, view, batches, raw)
   require(raw_digest(raw) == before and
           (case.get('slice') is not None or ds.raw_examples is raw) and
           raw_digest(ds.raw_examples) == raw_digest(eff), 'dataset_mutated')
+
+
+def check_consumer_edits(case, view, batches, raw):
+  """What a pass hands out is the consumer's: it may drop or add entries of a
+  batch dict and overwrite arrays that are its own (fresh copies, e.g. the
+  padded final batch -- not views of the dataset's arrays).  A later pass over
+  the same view is unaffected."""
+  if not case.get('consumer_edits') or not batches:
+    return
+  snap = [{f: np.array(v, copy=True) for f, v in bt.items()} for bt in batches]
+  owners = [np.asarray(v) for v in raw.values()]
+  for bt in batches:
+    for f, v in list(bt.items()):
+      if (isinstance(v, np.ndarray) and v.flags.writeable and v.size and v.dtype.kind in 'iufb'
+          and not any(np.shares_memory(v, o) for o in owners)):
+        v[...] = 1
+    bt.pop(MASK, None)
+    if bt:
+      bt.pop(sorted(bt)[0])
+    bt['__added_by_consumer__'] = 0
+  later = list(view)
+  require(len(later) == len(snap) and all(
+      set(x) == set(y) and all(same_array(np.asarray(x[f]), np.asarray(y[f])) for f in x)
+      for x, y in zip(snap, later)), 'pass_after_consumer_edited_earlier_batches_differs',
+          lambda: f'{[sorted(b) for b in later][-1:]} vs {[sorted(b) for b in snap][-1:]}')
 
 
 def check_overlapping_passes(view, batches):
@@ -336,6 +362,7 @@ def run_padded(case):
       set(x) == set(y) and all(same_array(np.asarray(x[f]), np.asarray(y[f])) for f in x)
       for x, y in zip(batches, again)), 'second_iteration_differs')
   check_overlapping_passes(view, batches)
+  check_consumer_edits(case, view, batches, raw)
   require(raw_digest(raw) == before and
           (case.get('slice') is not None or ds.raw_examples is raw) and
           raw_digest(ds.raw_examples) == raw_digest(eff), 'dataset_mutated')
@@ -387,6 +414,7 @@ def case_strategy(draw, tier, padded):
     case['layout'] = 'F'
   if draw(st.integers(0, 3)) == 0:
     case['abandoned_first'] = draw(st.sampled_from([1, 1, 2, 3]))
+  case['consumer_edits'] = draw(st.integers(0, 2)) == 0
   if padded:
     case['buckets'] = draw(st.integers(1, 8))
   else:
@@ -412,6 +440,8 @@ def labels(case):
     ls.append('preprocessor_used_before_append')
   if case.get('abandoned_first'):
     ls.append('first_pass_abandoned')
+  if case.get('consumer_edits'):
+    ls.append('consumer_edits_batches_between_passes')
   if case.get('fns_given') and case['preps']:
     ls.append('preprocessor_chain_from_' + ('generator' if case['fns_given'].startswith('gen') else 'list_emptied_later'))
   ls.append('N=0' if n == 0 else ('B>N' if b > n else ('B|N' if n % b == 0 else 'B∤N')))
